@@ -1622,6 +1622,23 @@ fn build_scenarios(tier: Tier) -> Vec<Scenario> {
                         Case::Q { q: q_of(0, base_fields(vec![agg(al, func, Some(x))])) },
                     ));
                 }
+                // the grouping key written AFTER an aggregate function, between two of them, and two keys around one:
+                // every selected scalar is a key wherever it stands
+                if let Some(g) = g {
+                    cases.push(cd(format!("{}|count|key-last", c), Case::Q { q: q_of(0, vec![agg("c", Func::Count, None), fld(*g)]) }));
+                    cases.push(cd(
+                        format!("{}|sum|key-between", c),
+                        Case::Q { q: q_of(0, vec![agg("c", Func::Count, None), fld(*g), agg("su", Func::Sum, Some(x))]) },
+                    ));
+                    // second key: one without a default (grouping on a key that reads as its default is a known defect,
+                    // keyed by the data tag of the first key only)
+                    if let Some(other) = [3usize, 7, 4].into_iter().find(|o| o != g && *o != x && e.fields[*o].default.is_none()) {
+                        cases.push(cd(
+                            format!("{}|count|two-keys-around", c),
+                            Case::Q { q: q_of(0, vec![fld(*g), agg("c", Func::Count, None), fld(other)]) },
+                        ));
+                    }
+                }
                 // all at once, ordered by an aggregate, then by the group key
                 let all = base_fields(vec![
                     agg("c", Func::Count, None),
